@@ -227,6 +227,45 @@ func c08Run(c *engine.Ctx) {
 	t0 = time.Now()
 	c.Sample(map[string]any{"builtin": "ltrimstr/1", "input": "f64(NaN)", "arg": "jn(1e1000)"})
 
+	// (b1) hand-written path lists: every ordered pair and triple of small paths (valid, overlapping, type-mismatching
+	// after an earlier path took effect) through the path natives, with the error rendered inside and outside a try
+	c.Sub("path-lists")
+	{
+		paths := []string{`[]`, `[0]`, `[0,0]`, `[0,"a"]`, `["a"]`, `["a",0]`, `["a","b"]`, `[{"start":0,"end":1}]`, `[0,{"start":1}]`, `[null]`, `[-1]`, `[1.5]`, `[[0]]`, `["a",null]`, `[true]`, `0`}
+		pins := []any{univ.J(`[[1,2]]`), univ.J(`{"a":[1,{"b":2}]}`), nil, univ.J(`[1,[2,[3]]]`), univ.J(`{"a":{"b":{"c":1}}}`)}
+		pi := 0
+		for _, p1 := range paths {
+			for _, p2 := range paths {
+				pi++
+				if !c.MineIdx(pi) || c.Expired() {
+					continue
+				}
+				p3s := append([]string{""}, paths...)
+				for _, p3 := range p3s {
+					list := p1 + "," + p2
+					if p3 != "" {
+						list += "," + p3
+					}
+					for _, form := range []string{"delpaths([%s])", "try delpaths([%s]) catch .", "[paths] as $ps | try delpaths([%s] + $ps[:1]) catch .", "try (reduce (%s) as $p (.; setpath($p; 1))) catch .", "reduce (%s) as $p (.; setpath($p; [$p]))",
+						"try [(%s) as $p | getpath($p)] catch .", "try delpaths([%s] | sort) catch ., (try delpaths([%s] | reverse) catch .)", "try (reduce (%s) as $p (.; delpaths([$p]))) catch .", "try pick(getpath(%s)) catch .", "try to_entries catch . | try delpaths([%s]) catch ."} {
+						src := strings.ReplaceAll(form, "%s", list)
+						key := src
+						if !c.Guard(key) {
+							continue
+						}
+						c.Eval()
+						if p := c08Exercise(src, pins); p != "" {
+							c.Violation(key, "crash", map[string]any{"query": src, "why": p})
+						}
+						c.Unguard()
+					}
+					c.DistinctN(1)
+				}
+			}
+		}
+		c.Sample(map[string]any{"program": `try delpaths([[0,0],[0,"a"]]) catch .`, "paths": len(paths), "lists": "every ordered pair and triple", "forms": 10})
+	}
+
 	// (b2) size families: every k = 1..K for constructs whose implementation has capacity thresholds
 	c.Sub("size-families")
 	K := 140
@@ -507,6 +546,9 @@ func c08Call(code *gojq.Code, in any, av []any) (problem string) {
 func c08Replay(v *engine.Violation) (bool, string) {
 	d := v.Detail
 	switch v.Check {
+	case "path-lists":
+		p := c08Exercise(d["query"].(string), []any{univ.J(`[[1,2]]`), univ.J(`{"a":[1,{"b":2}]}`), nil, univ.J(`[1,[2,[3]]]`), univ.J(`{"a":{"b":{"c":1}}}`)})
+		return p != "", p
 	case "query-mutations":
 		inputs := []any{nil, univ.J(`[1,[2,"a"],{"a":null}]`), univ.J(`{"a":[1,2],"b":"x"}`)}
 		p := c08Exercise(d["query"].(string), inputs)
